@@ -75,6 +75,118 @@ package utils
 //@   ensures [onlySessionJobs] forall j *podgroup_info.PodGroupInfo :: pushed(j) && !old(pushed(j)) ==> memberOf(ssn.ClusterInfo.PodGroupInfos, j)
 //@ end
 
+// ---- pq: the order structure itself (helper "pq") ---------------------------------------------------------
+// C16: "Priority, then FIFO, decides between equal workloads of a queue ... the allocate action never places a
+// lower-priority one while leaving a higher-priority one unplaced". Every leaf queue keeps its jobs in a
+// scheduler_util.PriorityQueue whose comparator is the closure createLeafNode$1: the session's JobOrderFn
+// (priority plugins first, then creation time, then UID: contract framework.(*Session).JobOrderFn), negated for a
+// victims queue (victims are taken in reverse order).
+//@ define isJob(x interface{}) bool = typeis(x, "*podgroup_info.PodGroupInfo") && unbox(x, "*podgroup_info.PodGroupInfo") != nil
+//@ define jobOf(x interface{}) *podgroup_info.PodGroupInfo = unbox(x, "*podgroup_info.PodGroupInfo")
+//@ define isQN(x interface{}) bool = typeis(x, "*queueNode") && unbox(x, "*queueNode") != nil
+//@ define qnOf(x interface{}) *queueNode = unbox(x, "*queueNode")
+//@ define orderFnsOK(ssn *framework.Session) bool = ssn != nil && (forall i int :: 0 <= i && i < len(ssn.JobOrderFns) ==> ssn.JobOrderFns[i] != nil)
+
+//@ func (*JobsOrderByQueues).createLeafNode$1
+//@   props C16
+//@   requires jo != nil && orderFnsOK(jo.ssn) && framework.isPG(l) && framework.isPG(r)
+//@   note the requires are not checked at call sites: the closure is only called by container/heap (through priorityQueue.Less) on two elements of a leaf queue, which are non-nil jobs (invariant leafItemsOK below)
+//@   pure
+//@   ensures [fifoFallback] framework.jobNeutral(jo.ssn, l, r) ==> result == (jo.options.VictimQueue != framework.fifoLessJob(framework.pgOf(l), framework.pgOf(r)))
+//@   ensures [firstPluginDecides] forall k int :: framework.jobDecider(jo.ssn, k, l, r) ==> result == (jo.options.VictimQueue != (framework.jobCmp(jo.ssn, k, l, r) < 0))
+//@ end
+
+//@ func (*JobsOrderByQueues).isRootQueue
+//@   inline
+//@ end
+
+// -- data invariant of the order structure ---------------------------------------------------------------------
+// A queueNode is only ever created by createLeafNode / createNonLeafNode, which give it a queue and a priority
+// queue `children`; those two fields and isLeaf are never reassigned. The invariant is therefore stated for EVERY
+// node that has a children queue ("alive"), not only for those currently registered in jo.queueNodes (nodes are
+// unregistered when they run empty, but parent pointers to them may survive):
+//   nodesOK   an alive node has a queue and a comparator; a parent pointer leads to an alive inner node (stated for
+//             every node with a parent pointer: nothing but ensureAncestorChainForPush assigns one)
+//   itemsOK   a leaf's children queue holds non-nil jobs, an inner node's holds alive nodes
+//   sepOK     distinct alive nodes own distinct priority queues with distinct backing arrays
+// and for one JobsOrderByQueues value jo:
+//   rootOK    rootNodes, if present, holds alive nodes and shares nothing with a node's children queue
+//   mapOK     every registered node is alive and registered under the UID of its queue
+// Exported methods ASSUME the invariant at entry and PROVE it at exit (object invariant: the fields involved are
+// unexported and written only by the functions of this file, all of which are under contract below; the
+// constructor NewJobsOrderByQueues creates no node). Helpers require and ensure it.
+//@ define alive(n *queueNode) bool = n != nil && n.children != nil
+//@ define nodesOK() bool = (forall n *queueNode :: n != nil && n.children != nil ==> n.queue != nil && n.children.queue.lessFn != nil) && (forall n *queueNode :: n != nil && n.parent != nil ==> n.parent.children != nil && n.parent.queue != nil && !n.parent.isLeaf)
+//@ define itemsOK() bool = (forall n *queueNode, i int :: n != nil && n.children != nil && n.isLeaf && 0 <= i && i < len(n.children.queue.items) ==> isJob(n.children.queue.items[i])) && (forall n *queueNode, i int :: n != nil && n.children != nil && !n.isLeaf && 0 <= i && i < len(n.children.queue.items) ==> isQN(n.children.queue.items[i]) && qnOf(n.children.queue.items[i]).children != nil)
+//@ define sepOK() bool = forall n1 *queueNode, n2 *queueNode :: alive(n1) && alive(n2) && n1 != n2 ==> n1.children != n2.children && !samearray(n1.children.queue.items, n2.children.queue.items)
+//@ define rootItemsOK(jo *JobsOrderByQueues) bool = jo.rootNodes != nil ==> jo.rootNodes.queue.lessFn != nil && (forall i int :: 0 <= i && i < len(jo.rootNodes.queue.items) ==> isQN(jo.rootNodes.queue.items[i]) && qnOf(jo.rootNodes.queue.items[i]).children != nil)
+//@ define rootSepOK(jo *JobsOrderByQueues) bool = jo.rootNodes != nil ==> (forall n *queueNode :: alive(n) ==> n.children != jo.rootNodes && !samearray(n.children.queue.items, jo.rootNodes.queue.items))
+//@ define mapOK(jo *JobsOrderByQueues) bool = forall q in jo.queueNodes :: alive(jo.queueNodes[q]) && jo.queueNodes[q].queue.UID == q
+//@ define structOK() bool = nodesOK() && itemsOK() && sepOK()
+//@ define joOK(jo *JobsOrderByQueues) bool = structOK() && rootItemsOK(jo) && rootSepOK(jo) && mapOK(jo)
+
+// constructors of nodes: a fresh alive node with an empty children queue ordered by the leaf / node comparator
+//@ func (*JobsOrderByQueues).createLeafNode
+//@   props C16 C10
+//@   requires jo != nil
+//@   fresh
+//@   ensures [node] result.queue == queue && result.isLeaf && result.parent == nil && !result.needsReorder
+//@   ensures [children] result.children != nil && fresh(result.children) && fresh(result.children.queue.items) && len(result.children.queue.items) == 0 && result.children.queue.lessFn != nil
+//@   ensures [depthBound] result.children.maxQueueSize == jo.options.MaxJobsQueueDepth
+//@   ensures [ordered] scheduler_util.swo(result.children.queue.lessFn) ==> scheduler_util.pqOrdered(result.children)
+//@ end
+
+//@ func (*JobsOrderByQueues).createNonLeafNode
+//@   props C10
+//@   requires jo != nil
+//@   fresh
+//@   ensures [node] result.queue == queue && !result.isLeaf && result.parent == nil && !result.needsReorder
+//@   ensures [children] result.children != nil && fresh(result.children) && fresh(result.children.queue.items) && len(result.children.queue.items) == 0 && result.children.queue.lessFn != nil
+//@   ensures [unbounded] result.children.maxQueueSize == scheduler_util.QueueCapacityInfinite
+//@ end
+
+//@ func (*JobsOrderByQueues).buildNodeOrderFn
+//@   inline
+//@ end
+
+// a priority queue of nodes (rootNodes or the children of an inner node): holds alive nodes only
+//@ define nodeQueue(pq *scheduler_util.PriorityQueue) bool = pq != nil && (forall i int :: 0 <= i && i < len(pq.queue.items) ==> isQN(pq.queue.items[i]) && qnOf(pq.queue.items[i]).children != nil)
+// its backing array is shared with no other node's children queue
+//@ define sepFrom(pq *scheduler_util.PriorityQueue) bool = forall n *queueNode :: alive(n) && n.children != pq ==> !samearray(n.children.queue.items, pq.queue.items)
+// the jobs of every leaf stay where they are (same queue object, same array, same cells)
+//@ define leavesKept() bool = forall n *queueNode, i int :: old(alive(n)) && old(n.isLeaf) && 0 <= i && i < old(len(n.children.queue.items)) ==> n.children.queue.items[i] == old(n.children.queue.items[i])
+
+// flags the node and all its ancestors; writes nothing else. Termination (the parent chain is acyclic because it
+// follows the queue hierarchy) is not claimed.
+//@ func (*JobsOrderByQueues).markAncestorsForReorder
+//@   props C10
+//@   modifies family(node.needsReorder)
+//@ end
+
+// getNextNode: the node at the top of a node queue, after re-sifting it while it is flagged. No claim about which
+// node that is (the node comparators depend on the current best job below each node: no fixed order exists).
+// Partial correctness: termination of the recursion (one flag is cleared per call) is not claimed.
+//@ func (*JobsOrderByQueues).getNextNode
+//@   props C10 C16
+//@   requires structOK() && nodeQueue(pq) && sepFrom(pq)
+//@   modifies pq.queue.items[*], family(qnOf(pq.queue.items[0]).needsReorder)
+//@   ensures [nodes] nodesOK()
+//@   ensures [items] itemsOK()
+//@   ensures [sep] sepOK()
+//@   ensures [nodeQueue] nodeQueue(pq)
+//@   ensures [sepFrom] sepFrom(pq)
+//@   ensures [top] result != nil ==> len(pq.queue.items) > 0 && qnOf(pq.queue.items[0]) == result && result.children != nil && len(result.children.queue.items) > 0
+//@   ensures [foundUnlessPruningBroken] old(len(pq.queue.items) > 0 && (forall i int :: 0 <= i && i < len(pq.queue.items) ==> len(qnOf(pq.queue.items[i]).children.queue.items) > 0)) ==> result != nil
+//@ end
+
+//@ func (*JobsOrderByQueues).ensureRootNodesInitialized
+//@   props C10
+//@   requires jo != nil
+//@   modifies jo.rootNodes
+//@   ensures [kept] old(jo.rootNodes) != nil ==> jo.rootNodes == old(jo.rootNodes)
+//@   ensures [created] old(jo.rootNodes) == nil ==> jo.rootNodes != nil && fresh(jo.rootNodes) && fresh(jo.rootNodes.queue.items) && len(jo.rootNodes.queue.items) == 0 && jo.rootNodes.queue.lessFn != nil && jo.rootNodes.maxQueueSize == scheduler_util.QueueCapacityInfinite
+//@ end
+
 // ---- exec: the job order as used by the Execute loops of preempt / reclaim / consolidation (C05) ----------
 // The order structure is a tree of container/heap priority queues with comparator closures (outside the
 // subset, like PushJob). orderEmpty(jo) is the abstract answer of IsEmpty. Assumed: IsEmpty reads only;
